@@ -135,6 +135,36 @@ class World:
                 raise Mismatch("network", "%s wallet on %s emitted %r" % (w, self.wnet(w), s))
 
 
+def lifetime_check(W):
+    """Epilogue of a replayed behaviour: the caller keeps a few derived nodes and lets go of the wallet, the
+    generators and every other node.  What the kept nodes print (and hold) afterwards is what they printed before:
+    an answer does not depend on OTHER objects still being alive."""
+    import gc
+    keep = [(path, n) for (w, path), n in W.objs.items() if w == "full" and len(path) >= 1][-3:]
+    if not keep:
+        return 0
+
+    def view(n):
+        out = [World.fields(n), str(n), n.extended_public_key()]
+        try:
+            out.append(n.extended_private_key())
+        except Exception:
+            out.append(None)
+        return out
+    before = [(path, view(n)) for path, n in keep]
+    nodes = [n for path, n in keep]
+    W.objs.clear()
+    W.gens.clear()
+    W.pending.clear()
+    W.full = W.watch = None
+    del keep
+    gc.collect()
+    for (path, b), n in zip(before, nodes):
+        if view(n) != b:
+            raise Mismatch("purity", "node %s prints differently once the wallet and all other nodes have been dropped" % path_str(path))
+    return len(nodes)
+
+
 def norm_path(p):
     return tuple(real_index(x) for x in p)
 
